@@ -138,4 +138,11 @@ CHECKS = {
         note="Bounded: depth 4 (5 thorough), fault at store call 1..3 (1..6), two tasks. Light replication entity (recording channel manager); the busy-background-work clause was exercised by the stall watchdog of the pipeline harness (barrier spin, fixed).",
         parts=[part("lifecycle", "server", ".", "TestVerifC11Lifecycle", shards=(16, 16), budget=(150, 1200))],
     ),
+    "C12": dict(
+        level="model_checking", engine="seq",
+        technique="explicit-state BFS over store operation histories on both real backends (etcd stores over fakeetcd, MySQL stores over fakesql) with full-dump frame-condition oracle and fault enumeration over DeleteTask round trips",
+        text="The real etcd and MySQL metadata stores, driven through the real meta_op.go functions, share one backend between several root paths; every operation history up to the depth bound over prefix-sharing and pattern-character identifiers is executed and the full backend dump is diffed after every operation (only the addressed record may change; inside a checkpoint only the addressed channel; dropped entries never; reads return own records only); DeleteTask is run with a failure injected at every backend round trip and must be all-or-nothing.",
+        note="fakesql implements exactly the statement shapes of mysql.go (unknown SQL is an error), LIKE with % and _, binary string comparison (MySQL's case-insensitive default collation is not modelled: the check demands less). fakeetcd is a model of etcd Get/Put/Delete/Txn; conformance against embedded etcd is a thorough-tier part.",
+        parts=[part("isolation", "server", "store", "TestVerifC12Isolation", shards=(8, 16), budget=(150, 900))],
+    ),
 }
